@@ -63,6 +63,8 @@ impl Gadget {
 pub struct Dev {
     pub script: Vec<(usize, Fe)>,
     pub tag: String,
+    /// always replay this deviation on the real prover (crafted attacks)
+    pub must_confirm: bool,
 }
 
 #[derive(Clone, Debug)]
@@ -162,7 +164,7 @@ pub fn bound1(h: &Honest, extra: &dyn Fn(usize, Fe) -> Vec<(String, Fe)>) -> Vec
             }
         }
         for (t, x) in vals {
-            devs.push(Dev { script: vec![(k, x)], tag: format!("o{}{}", k - h.meta.lo, t) });
+            devs.push(Dev { script: vec![(k, x)], tag: format!("o{}{}", k - h.meta.lo, t), must_confirm: false });
         }
     }
     devs
@@ -183,6 +185,7 @@ pub fn bound2(h: &Honest) -> Vec<Dev> {
                     devs.push(Dev {
                         script: vec![(i, xi), (j, xj)],
                         tag: format!("o{}{}+o{}{}", i - h.meta.lo, ti, j - h.meta.lo, tj),
+                        must_confirm: false,
                     });
                 }
             }
@@ -245,6 +248,8 @@ pub struct Exploration {
     pub sat: Vec<Dev>,
     /// one unsatisfiable deviation per failing component class
     pub unsat_samples: Vec<(usize, Dev)>,
+    /// crafted deviations that must be replayed on the real prover, with the model's verdict
+    pub must_confirm: Vec<(Dev, bool)>,
     pub panics: Vec<(Dev, String)>,
 }
 
@@ -260,6 +265,7 @@ pub fn explore(g: &Gadget, h: &Honest, devs: &[Dev], expected_outs: Option<&[Fe]
         wrong_outputs: vec![],
         sat: vec![],
         unsat_samples: vec![],
+        must_confirm: vec![],
         panics: vec![],
     };
     let mut seen_comp: std::collections::HashSet<Vec<usize>> = std::collections::HashSet::new();
@@ -276,6 +282,9 @@ pub fn explore(g: &Gadget, h: &Honest, devs: &[Dev], expected_outs: Option<&[Fe]
             DevOutcome::Decided { verdict, outs, same_layout } => {
                 if !same_layout {
                     ex.n_layout_changed += 1;
+                }
+                if d.must_confirm && ex.must_confirm.len() < 24 {
+                    ex.must_confirm.push((d.clone(), verdict.satisfied()));
                 }
                 if verdict.satisfied() {
                     ex.n_sat += 1;
